@@ -14,7 +14,7 @@
   the loader itself may refuse (`levels=True` with a conflicting order) and exclude the
   level gaps of F7 (`Contig`).  For JSON the writer is proved, the reader is not.
 -/
-import DDProofs.DumpProofs
+import DDProofs.DumpJson
 open Std
 namespace DD
 
@@ -111,14 +111,41 @@ theorem C12_manager_roundtrip (m : Mgr) (hv : DmpVarsOK m.tbl) (hp : PredShape m
 
 /-! ### JSON -/
 
-/-- the writer (proved); the reader's half is `json_load_statement` (not proved) -/
+/-- the writer: the content `dump_json` writes is what `load_json` accepts, the roots
+container is stored as given, and every root denotes the same function by name -/
 theorem C12_json_dump_spec {m : Mgr} (hI : Inv m) (hv : DmpVarsOK m.tbl) {roots : Roots} {f : JsonFile}
     (h : dumpJson m roots = .ok f) :
-    PickleWF f.toPickle ∧ ChildrenFirst f.nodes ∧ f.roots = roots ∧
-    ∀ α, ∀ u ∈ roots.values, evalJson f u α = denBy m.tbl u α :=
-  ⟨(dumpJson_spec hI hv h).1, dumpJson_childrenFirst h, (dumpJson_spec hI hv h).2.1,
-   (dumpJson_spec hI hv h).2.2⟩
+    JsonWF f ∧ f.roots = roots ∧ ∀ α, ∀ u ∈ roots.values, evalJson f u α = denBy m.tbl u α :=
+  ⟨dumpJson_jsonWF hI hv h, (dumpJson_spec hI hv h).2.1, (dumpJson_spec hI hv h).2.2⟩
 
+/-- the reader, `load_order=False`, dynamic reordering not enabled (the `_partial` of
+`json_load_statement`): any well-formed content loads into any good manager — other variable
+order, other variables, pre-existing nodes, user references `e` — `assert_consistent` and the
+`ref < 2` assertions pass, every temporary `Function` is released, the result has the
+container shape of the file's roots and denotes, by variable name, what the file says; the
+counts are exact for the ledger `e` plus one reference per returned `Function`; every node
+the manager had is still there. -/
+theorem C12_json_load_partial (f : JsonFile) (hf : JsonWF f) (tgt : Mgr) (e : Nat → Nat)
+    (hg : GoodState tgt e) (hpn : PredNodes tgt) (hroots : ∀ r ∈ tgt.roots, tgt.tbl.Mem r) :
+    ∃ roots' m', loadJson f false tgt = (.ok roots', m') ∧
+      GoodState m' (extAdd e (roots'.values.map Int.natAbs)) ∧ PredNodes m' ∧
+      (∀ u n, tgt.tbl.node? u = some n → m'.tbl.node? u = some n) ∧
+      RootsRel (fun u r => m'.tbl.Mem r ∧ ∀ α, denBy m'.tbl r α = evalJson f u α) f.roots roots' :=
+  loadJson_false_spec f hf tgt e hg hpn hroots
+
+/-- `json_roundtrip`, `load_order=False`, reordering not enabled -/
+theorem C12_json_roundtrip_off (src : Mgr) (hIs : Inv src) (hvs : DmpVarsOK src.tbl)
+    (roots : Roots) (f : JsonFile) (hd : dumpJson src roots = .ok f)
+    (tgt : Mgr) (e : Nat → Nat) (hg : GoodState tgt e) (hpn : PredNodes tgt)
+    (hroots : ∀ r ∈ tgt.roots, tgt.tbl.Mem r) :
+    ∃ roots' m', loadJson f false tgt = (.ok roots', m') ∧
+      GoodState m' (extAdd e (roots'.values.map Int.natAbs)) ∧
+      (∀ u n, tgt.tbl.node? u = some n → m'.tbl.node? u = some n) ∧
+      LoadedAs src.tbl roots m'.tbl roots' :=
+  json_roundtrip_off src hIs hvs roots f hd tgt e hg hpn hroots
+
+/-- the full JSON round trip follows from the full reader statement (not proved: `load_order=True`
+and reordering-enabled targets) and the proved writer -/
 theorem C12_json_roundtrip_of_load (hL : json_load_statement) : json_roundtrip_statement :=
   json_roundtrip_of_load hL
 
@@ -127,6 +154,38 @@ reordering is enabled, whatever it was before -/
 theorem C12_loadJson_loadOrder_enables_reordering (f : JsonFile) (m m' : Mgr) (r : Roots)
     (h : loadJson f true m = (.ok r, m')) : m'.lastLen.isSome = true :=
   loadJson_loadOrder_enables_reordering f m m' r h
+
+/-! ### exact reference counts after a load (`RefExact m ext`: every count = in-degree +
+the user's ledger `ext`, + 1 for the terminal) -/
+
+/-- `dd.bdd.BDD.load` (pickle): the returned roots are plain integers — nothing is held for
+the caller, the counts are exact for the SAME ledger -/
+theorem C12_load_target_counts_bdd (ext : Nat → Nat) (f : PickleFile) (levels : Bool)
+    (m : Mgr) (hI : Inv m) (hx : RefExact m ext) (hb : DmpVarsBij m.tbl) (hc : m.ctx = false)
+    (hwf : PickleWF f) (hr : RootsResolvable f) (lm : List (Nat × Nat)) (m1 : Mgr)
+    (hv : loadVars levels f.vars.length f.vars [] m = (.ok lm, m1)) (hg : Contig m1.tbl) :
+    ∃ roots' m', loadPickle f levels m = (.ok roots', m') ∧ Inv m' ∧ RefExact m' ext ∧
+      LoadedFrom f m'.tbl roots' :=
+  pickle_load_counts ext f levels m hI hx hb hc hwf hr lm m1 hv hg
+
+/-- `dd.autoref.BDD.load` (pickle): each returned `Function` holds one reference, everything
+else nets to zero -/
+theorem C12_load_target_counts_autoref_pickle (ext : Nat → Nat) (f : PickleFile) (levels : Bool)
+    (m : Mgr) (hI : Inv m) (hx : RefExact m ext) (hb : DmpVarsBij m.tbl) (hc : m.ctx = false)
+    (hwf : PickleWF f) (hr : RootsResolvable f) (lm : List (Nat × Nat)) (m1 : Mgr)
+    (hv : loadVars levels f.vars.length f.vars [] m = (.ok lm, m1)) (hg : Contig m1.tbl) :
+    ∃ roots' m', loadPickleAutoref f levels m = (.ok roots', m') ∧ Inv m' ∧
+      RefExact m' (extAdd ext (roots'.values.map Int.natAbs)) ∧ LoadedFrom f m'.tbl roots' :=
+  pickleAutoref_counts ext f levels m hI hx hb hc hwf hr lm m1 hv hg
+
+/-- `_copy.load_json` on `dd.autoref` (`load_order=False`, reordering not enabled): the `+1` of
+`_make_node` and every temporary are released; each returned `Function` holds one reference -/
+theorem C12_load_target_counts_json (f : JsonFile) (hf : JsonWF f) (tgt : Mgr) (e : Nat → Nat)
+    (hg : GoodState tgt e) (hpn : PredNodes tgt) (hroots : ∀ r ∈ tgt.roots, tgt.tbl.Mem r) :
+    ∃ roots' m', loadJson f false tgt = (.ok roots', m') ∧
+      RefExact m' (extAdd e (roots'.values.map Int.natAbs)) := by
+  obtain ⟨r, m', h1, h2, _⟩ := loadJson_false_spec f hf tgt e hg hpn hroots
+  exact ⟨r, m', h1, h2.exact⟩
 
 /-! ### non-vacuity: concrete states meeting the hypotheses -/
 
@@ -156,5 +215,22 @@ example : (loadPickle fileBA false mgrAB).1 = .ok (.list [4]) ∧
 example : (loadPickle fileNoRoots true {}).1 = .ok (.list []) ∧
     (loadPickle fileConstRoot true {}).1 = .ok (.list [1]) :=
   ⟨load_roots_none_ok, load_constant_root_ok⟩
+
+/-- JSON: the content of `b ∧ a` (order b < a) -/
+def jsonBA : JsonFile :=
+  { levelOfVar := [("a", 1), ("b", 0)]
+    roots := .list [3]
+    nodes := [⟨2, 1, -1, 1⟩, ⟨3, 0, -1, 2⟩] }
+
+/-- the hypotheses of `C12_json_load_partial` on the fresh manager (no user references), and
+what the model computes for `jsonBA` loaded into a manager declaring a < b: the ordered
+diagram of `a ∧ b`, one reference on the returned root, none left on the temporaries -/
+example : GoodState ({} : Mgr) (fun _ => 0) ∧ PredNodes {} ∧ (∀ r ∈ ({} : Mgr).roots, ({} : Mgr).tbl.Mem r) :=
+  ⟨GoodState.init, by intro k u h; simp at h, by intro r hr; simp at hr⟩
+
+example : (loadJson jsonBA false mgrAB).1 = .ok (.list [4]) ∧
+    (loadJson jsonBA false mgrAB).2.tbl.node? 4 = some ⟨0, -1, 3⟩ ∧
+    (loadJson jsonBA false mgrAB).2.ref[4]? = some 1 ∧
+    (loadJson jsonBA false mgrAB).2.ref[2]? = some 0 := by decide +kernel
 
 end DD
